@@ -123,15 +123,35 @@ def draw_graph(rnd, n=None, types=STRUCTURAL, with_noop=False, with_number=None,
     return props, graph
 
 
-def eval_graph(graph, raw, scalers=None):
-    """independent evaluation of the dataflow graph in exact rationals (the C13 oracle)"""
+class Wraps(Exception):
+    """an integer-typed intermediate result does not fit the raw integer dtype: NumPy wraps, outside the property"""
+
+
+def eval_graph(graph, raw, scalers=None, int_range=None):
+    """independent evaluation of the dataflow graph in exact rationals (the C13 oracle).
+    int_range = (lo, hi) of the raw dtype when it is an integer type: Add/Subtract/AdvancedAPI of integer-typed inputs stay
+    integer-typed in NumPy; if such a result leaves the range the case is reported through `Wraps`."""
     vals = []
+    is_int = []
     for node in graph:
         def inp(s):
             return Fraction(raw) if s == RAW else vals[s]
+
+        def inp_int(s):
+            return (int_range is not None) if s == RAW else is_int[s]
         k = node[0]
         if k == "daqmx":
             vals.append(Fraction(scalers[node[1]]))
+            is_int.append(int_range is not None)
+            continue
+        if k in ("add", "subtract"):
+            is_int.append(inp_int(node[1]) and inp_int(node[2]))
+        elif k == "noop":
+            is_int.append(inp_int(node[1]))
+        else:
+            is_int.append(False)
+        if False:
+            pass
         elif k == "linear":
             vals.append(inp(node[3]) * Fraction(node[1]) + Fraction(node[2]))
         elif k == "polynomial":
@@ -157,6 +177,8 @@ def eval_graph(graph, raw, scalers=None):
             vals.append(inp(node[1]))
         else:
             raise ValueError(k)
+        if is_int[-1] and not (int_range[0] <= vals[-1] <= int_range[1]):
+            raise Wraps()
     return vals[-1]
 
 
